@@ -9,6 +9,7 @@ import dets
 import gen
 from common import Outcome, rng_for
 
+RULE_ADDENDA = ('streams of 4 300-5 200 updates; RDDM with its default sizes (min_concept_size 7000); a theorem witness replayed on the implementation')
 LEVEL = "proof"
 SHRINK_KEYS = ("stream",)
 EXPLANATION = ("Theorems relate the incremental model to the non-incremental published rules; this run evaluates those rules "
